@@ -112,12 +112,14 @@ type OnSend struct {
 	ChanExpr ast.Expr
 	Assert   *Clause
 	Effect   *Clause
+	Recv     bool // on-recv: applies to receives instead of sends
 }
 
 // AtCall: an assertion over the caller's variables checked immediately
 // before every call whose callee name contains Callee.
 type AtCall struct {
-	Callee string
+	Callee string // substring of the callee name; "name@text" also requires text in the call's source snippet
+	Site   string
 	Pred   *Clause
 }
 
@@ -364,7 +366,7 @@ func loadPkgSpec(path, pkgPath string) (*PkgSpec, error) {
 				return nil, err
 			}
 			cur.GhostInits = append(cur.GhostInits, c)
-		case "at-send", "on-send":
+		case "at-send", "on-send", "on-recv":
 			// at-send <chan> [label] pred     |   on-send <chan> effect g_x == expr
 			i := strings.IndexAny(rest, " \t")
 			if i < 0 {
@@ -377,15 +379,16 @@ func loadPkgSpec(path, pkgPath string) (*PkgSpec, error) {
 			}
 			os.ChanExpr = ce
 			body := strings.TrimSpace(rest[i+1:])
-			if word == "on-send" {
+			if word == "on-send" || word == "on-recv" {
 				body = strings.TrimSpace(strings.TrimPrefix(body, "effect"))
 			}
 			c, err := parseClause(body, path, ln.n)
 			if err != nil {
 				return nil, err
 			}
-			if word == "on-send" {
+			if word == "on-send" || word == "on-recv" {
 				os.Effect = c
+				os.Recv = word == "on-recv"
 			} else {
 				os.Assert = c
 			}
@@ -401,7 +404,12 @@ func loadPkgSpec(path, pkgPath string) (*PkgSpec, error) {
 			if err != nil {
 				return nil, err
 			}
-			cur.AtCalls = append(cur.AtCalls, &AtCall{Callee: rest[:i], Pred: c})
+			ac := &AtCall{Callee: rest[:i], Pred: c}
+			if j := strings.Index(ac.Callee, "@"); j >= 0 {
+				ac.Site = ac.Callee[j+1:]
+				ac.Callee = ac.Callee[:j]
+			}
+			cur.AtCalls = append(cur.AtCalls, ac)
 		case "chaninv":
 			d, err := parseChanInv(rest, path, ln.n, pkgPath)
 			if err != nil {
